@@ -1716,6 +1716,27 @@ func scenarioPageOrdinals(c *core.Ctx) {
 		if err != nil || oi.NumPages() != n {
 			continue
 		}
+		// pages whose ordinals differ only above the low byte(s) cannot be exchanged
+		for _, d := range []int{256, 512, 4096, 16384} {
+			a, b := 3, 3+d
+			if b >= n {
+				continue
+			}
+			oa, sa, ob, sb := oi.Offset(a), oi.CompressedPageSize(a), oi.Offset(b), oi.CompressedPageSize(b)
+			if sa != sb {
+				continue
+			}
+			mod := append([]byte{}, data...)
+			copy(mod[oa:oa+sa], data[ob:ob+sb])
+			copy(mod[ob:ob+sb], data[oa:oa+sa])
+			c.Res.Evaluations++
+			if f2, err := parquet.OpenFile(bytes.NewReader(mod), int64(len(mod)), parquet.WithDecryption(&keyset{p: p})); err == nil {
+				if got, err := readRowsT[row](f2, 0); err == nil {
+					c.Violation("page-ordinal-wrap", fmt.Sprintf("chunk of %d pages: pages %d and %d exchanged: %d rows read with a nil error, row %d = %d", n, a, b, len(got), a, got[a].V),
+						map[string]any{"kind": "page-ordinals", "pages": n, "exchanged": []int{a, b}})
+				}
+			}
+		}
 		if n > 65536 {
 			o0, s0, o1, s1 := oi.Offset(0), oi.CompressedPageSize(0), oi.Offset(65536), oi.CompressedPageSize(65536)
 			if s0 == s1 {
@@ -1730,6 +1751,64 @@ func scenarioPageOrdinals(c *core.Ctx) {
 							map[string]any{"kind": "page-ordinals", "pages": n})
 					}
 				}
+			}
+		}
+	}
+}
+
+// Row group ordinals above 255: the only page of row group 2 and of row group
+// 2+256 cannot be exchanged (both footer modes).
+func scenarioRowGroupOrdinals(c *core.Ctx) {
+	type row struct {
+		V int64 `parquet:"v"`
+	}
+	for _, ef := range []bool{true, false} {
+		p := &fparams{Seed: 80, KeyLen: 16, EncFooter: ef}
+		var buf bytes.Buffer
+		w := parquet.NewGenericWriter[row](&buf, parquet.WithEncryption(p.encryption()), parquet.DataPageStatistics(false))
+		n := 300
+		var err error
+		for i := 0; i < n && err == nil; i++ {
+			if _, err = w.Write([]row{{V: int64(i) * 1000003}}); err == nil {
+				err = w.Flush()
+			}
+		}
+		if err == nil {
+			err = w.Close()
+		}
+		if err != nil {
+			c.Violation("roundtrip", fmt.Sprintf("writing %d encrypted row groups: %v", n, err), map[string]any{"kind": "row-group-ordinals", "enc_footer": ef})
+			continue
+		}
+		data := buf.Bytes()
+		f, err := parquet.OpenFile(bytes.NewReader(data), int64(len(data)), parquet.WithDecryption(&keyset{p: p}))
+		if err != nil || len(f.RowGroups()) != n {
+			c.Violation("roundtrip", fmt.Sprintf("file with %d encrypted row groups does not open: %v", n, err), map[string]any{"kind": "row-group-ordinals", "enc_footer": ef})
+			continue
+		}
+		loc := func(g int) (int64, int64, bool) {
+			oi, err := f.RowGroups()[g].ColumnChunks()[0].OffsetIndex()
+			if err != nil || oi == nil || oi.NumPages() != 1 {
+				return 0, 0, false
+			}
+			return oi.Offset(0), oi.CompressedPageSize(0), true
+		}
+		a, b := 2, 2+256
+		oa, sa, ok1 := loc(a)
+		ob, sb, ok2 := loc(b)
+		c.Case("scenario/row-group-ordinals", fmt.Sprint(ef), true)
+		if !ok1 || !ok2 || sa != sb {
+			c.Note("row group ordinals: page sizes differ (%d, %d), exchange skipped", sa, sb)
+			continue
+		}
+		mod := append([]byte{}, data...)
+		copy(mod[oa:oa+sa], data[ob:ob+sb])
+		copy(mod[ob:ob+sb], data[oa:oa+sa])
+		c.Res.Evaluations++
+		if f2, err := parquet.OpenFile(bytes.NewReader(mod), int64(len(mod)), parquet.WithDecryption(&keyset{p: p})); err == nil {
+			if got, err := readRowsT[row](f2, 0); err == nil {
+				c.Violation("module-exchange-accepted", fmt.Sprintf("%d row groups (encrypted footer %v): the pages of row groups %d and %d exchanged: %d rows read with a nil error, row %d = %d", n, ef, a, b, len(got), a, got[a].V),
+					map[string]any{"kind": "row-group-ordinals", "enc_footer": ef})
 			}
 		}
 	}
@@ -1812,6 +1891,7 @@ func run(c *core.Ctx) {
 	scenarioBeginRowGroup(c)
 	scenarioStrippedSignature(c)
 	scenarioPageOrdinals(c)
+	scenarioRowGroupOrdinals(c)
 	t2 := time.Now()
 	// (d)
 	tamperEnumeration(c)
